@@ -206,3 +206,51 @@ pub fn drive(args: &[String]) -> i32 {
     eprintln!("c03: {} cases, {} events", cases.len(), events.len());
     0
 }
+
+// ------------------------------------------------------------------------------ DER probe
+
+/// vharness c03der --cases <ndjson> --stride <n> --crate <dir> --plan <json>
+/// One file per tag point: its bindings and a function that builds a value of the type and encodes it with
+/// rasn's DER codec.  Building and running the probe is the Python side's business.
+pub fn der_gen(args: &[String]) -> i32 {
+    let cases = util::read_ndjson(util::arg(args, "--cases").expect("--cases"));
+    let stride: usize = util::arg(args, "--stride").and_then(|s| s.parse().ok()).unwrap_or(1);
+    let dir = util::arg(args, "--crate").expect("--crate").to_string();
+    std::fs::create_dir_all(format!("{dir}/src")).unwrap();
+    let idx: Vec<usize> = (0..cases.len()).filter(|k| cases[*k]["t"] == "tag" && k % stride == 0).collect();
+    let plan: Vec<Value> = util::par_chunks(&idx, 16, util::threads(), |_, chunk| {
+        run::install_panic_hook();
+        chunk.iter().map(|&k| {
+            let c = &cases[k];
+            let text = module(c["md"].as_str().unwrap(), false, &render(k, c));
+            let (o, _) = run::compile_rasn(&[text.clone()], run::default_config());
+            let mut e = c.clone();
+            e["ev"] = json!("der");
+            e["k"] = json!(k);
+            e["num"] = json!(tag_number(k));
+            e["asn"] = json!(text);
+            e["status"] = json!(if o.status == "ok" && !o.warnings.is_empty() { "warn".to_string() } else { o.status.clone() });
+            e["file"] = json!("");
+            e["expr"] = json!("");
+            if o.clean() {
+                let krate = rsproj::project(&o.generated);
+                let name = format!("Tg{k}");
+                let module_name = krate.modules.iter().find(|m| !m.name.is_empty()).map(|m| m.name.clone()).unwrap_or_default();
+                if let Some(expr) = crate::rsvalue::build(&krate, &name, 0) {
+                    let file = format!("c_{k}.rs");
+                    let body = format!("{}\npub fn run() -> Result<Vec<u8>, String> {{\n    use self::{module_name}::*;\n    use rasn::prelude::*;\n    extern crate alloc;\n    let v: {name} = {expr};\n    rasn::der::encode(&v).map_err(|e| e.to_string())\n}}\n",
+                                       crate::drivers::c01::one_item_per_line(&o.generated));
+                    std::fs::write(format!("{dir}/src/{file}"), body).unwrap();
+                    e["file"] = json!(file);
+                    e["expr"] = json!(expr);
+                } else {
+                    e["status"] = json!("novalue");
+                }
+            }
+            e
+        }).collect()
+    });
+    std::fs::write(util::arg(args, "--plan").expect("--plan"), serde_json::to_string(&plan).unwrap()).unwrap();
+    eprintln!("c03der: {} tag points, {} probe files", plan.len(), plan.iter().filter(|e| e["file"] != "").count());
+    0
+}
